@@ -24,7 +24,7 @@ fn is_class_a(n: &str) -> bool {
 	!n.contains('.') && n.parse::<i64>().is_err() && n.parse::<u64>().is_err()
 }
 
-fn in_double_range(n: &str) -> bool {
+pub fn in_double_range(n: &str) -> bool {
 	n.parse::<f64>().map(|f| f.is_finite()).unwrap_or(false)
 }
 
@@ -172,10 +172,10 @@ pub fn property(v: &RefValue) -> Result<Report, (String, Option<&'static str>)> 
 			let got = RefValue::from_value(&d);
 			let kept = same_modulo_number_spelling(v, &got, "$", &|_| true);
 			let collapsed = same_modulo_number_spelling(&serialize_model(v), &got, "$", &|_| true);
-			if let (Err((m1, s1)), Err((m2, _))) = (&kept, &collapsed) {
-				if s1.is_none() {
-					return Err((format!("from_value::<Value> of a value with duplicate keys is neither the same structure ({m1}) nor the serialization-style collapse ({m2})"), None));
-				}
+			if let (Err((m1, s1)), Err((m2, s2))) = (&kept, &collapsed) {
+				// when one of the two comparisons fails only on a number of a known class, it is that finding showing
+				// inside a duplicate-carrying value, not a new one
+				return Err((format!("from_value::<Value> of a value with duplicate keys is neither the same structure ({m1}) nor the serialization-style collapse ({m2})"), s1.or(*s2)));
 			}
 		}
 	}
